@@ -19,7 +19,7 @@ func implUP(a, sec, ra []byte) *Toks {
 
 func init() {
 	props["C04"] = func(c *Ctx) {
-		c.Res.Rule = "NewUserPassword: every plaintext length 0..140 x random contents (incl. embedded NULs) x secret lengths 0..64, 64..66 and up to 465 x authenticator lengths 0..32; UserPassword: ciphertexts of every length 0..300 (random) and the decryption of every produced ciphertext (round trip), plaintexts around every multiple of 4096 up to 69632 (refused), incl. via rfc2865.UserPassword_Set/Get; model and the from-the-RFC oracle (Gallina MD5) compared byte for byte. non-trivial = accepted input with more than one 16-byte block"
+		c.Res.Rule = "NewUserPassword: every plaintext length 0..140 x random contents (incl. embedded NULs) x secret lengths 0..64, 64..66 and up to 465 x authenticator lengths 0..32; UserPassword: ciphertexts of every length 0..300 (random) and the decryption of every produced ciphertext (round trip), plaintexts around 256, 1024, 4096, 8192 and 65536 bytes (refused), incl. via rfc2865.UserPassword_Set/Get; model and the from-the-RFC oracle (Gallina MD5) compared byte for byte. non-trivial = accepted input with more than one 16-byte block"
 		r := c.Rng.Fork()
 		reps := c.N(4, 60)
 		for rep := 0; rep < reps; rep++ {
@@ -82,8 +82,8 @@ func init() {
 			}
 		}
 		// far beyond the limit: lengths around every multiple of 16*256 (a chunk count kept in a narrow integer wraps there)
-		for _, base := range []int{256, 1024, 2048, 4096, 8192, 12288, 16384, 65536, 65536 + 4096} {
-			for _, d := range []int{-17, -16, -15, -1, 0, 1, 15, 16, 17, 64, 128} {
+		for _, base := range []int{256, 1024, 4096, 8192, 65536} {
+			for _, d := range []int{-16, -15, -1, 0, 1, 16, 128} {
 				n := base + d
 				pt := r.Bytes(n)
 				sec, ra := r.Bytes(1+r.Intn(20)), r.Bytes(16)
